@@ -24,11 +24,34 @@ def swap(x): x = list(x); x[0], x[1] = x[1], x[0]; return x
 def shift(x): x = list(x); x[0] = x[0] + 1.0; return x
 def tie(x): x = list(x); x[1] = x[0]; return x
 
+def step(x): x = list(x); x[0] = x[0] - min(1.0, x[0] - 2.0) if x[0] > 2.0 else x[0]; return x   # toward x0 <= 2 by at most 1
+
 MEMBERS = [_mk(identity, 'identity', True), _mk(pin1, 'pin1', True), _mk(pin2, 'pin2', True),
            _mk(le2, 'le2', True), _mk(ge3, 'ge3', True), _mk(rnd0, 'round0', True),
            _mk(box, 'box', True), _mk(swap, 'swap', False), _mk(shift, 'shift', False),
            _mk(tie, 'tie', True)]
-BYNAME = {m.__name__: m for m in MEMBERS}
+EXTRA = [_mk(step, 'step', False)]
+
+
+def _inplace(pure, name):
+    """the same map written the way generated solvers are: it edits its argument and returns it"""
+    def f(x):
+        y = pure(list(x))
+        for i, v in enumerate(y):
+            x[i] = v
+        return x
+    return _mk(f, name, pure.idem)
+
+
+def _chase(x):       # x0 = x1 + 1 ; x1 = x0 + 1, in place: never at rest
+    x[0] = x[1] + 1.0
+    x[1] = x[0] + 1.0
+    return x
+
+
+INPLACE = [_inplace(BYNAME_, n + '!') for BYNAME_, n in ((pin1, 'pin1'), (le2, 'le2'), (ge3, 'ge3'), (swap, 'swap'),
+                                                         (shift, 'shift'), (tie, 'tie'), (step, 'step'))] + [_mk(_chase, 'chase!', False)]
+BYNAME = {m.__name__: m for m in MEMBERS + EXTRA + INPLACE}
 GRID = [0.0, 1.0, 2.5, 3.0]
 INPUTS = [[a, b] for a in GRID for b in GRID]
 UNIT = (0.0, 0.25, 0.5, 0.75, env.ONE_MINUS)
@@ -51,6 +74,18 @@ def _one(kind, names, x0, maxiter, chooser, as_array=False):
             c = mc.or_(*members, maxiter=maxiter, onexit=onexit, onfail=onfail)
         else:
             c = mc.not_(members[0], maxiter=maxiter, onexit=onexit, onfail=onfail)
+        if isinstance(x0, dict):          # reuse: the same combinator object is first applied to another input
+            first = list(x0['first'])
+            if as_array:
+                import numpy
+                first = numpy.array(first)
+            rng.ch = tree.Chooser()       # the first application takes the default answers (not choice points)
+            try:
+                c(first)
+            finally:
+                rng.ch = chooser
+            del fired[:]
+            x0 = x0['then']
         xin = list(x0)
         if as_array:
             import numpy
@@ -78,11 +113,17 @@ def _judge(kind, names, y, fired):
     return None
 
 
+REUSE_INPUTS = [[a, b] for a in (0.0, 2.5, 4.5) for b in (0.0, 1.0)]
+
+
 def shard(item):
     kind, tuples, maxiters, bound, free = item[:5]
+    inputs = INPUTS
+    if len(item) > 5 and item[5] == 'reuse':
+        inputs = [{'first': a, 'then': b} for a in REUSE_INPUTS for b in REUSE_INPUTS]
     T = Tally()
     for names in tuples:
-        for x0 in INPUTS:
+        for x0 in inputs:
             for maxiter in maxiters:
                 for arr in ((False, True) if kind != 'not' else (False,)):
                     outcomes = set()
@@ -99,7 +140,7 @@ def shard(item):
                         if msg:
                             nonidem = [n for n in names if not BYNAME[n].idem]
                             T.violate({'clause': kind + '_success', 'members': list(names),
-                                       'randomised': bool(ndraw),
+                                       'randomised': bool(ndraw), 'reused_object': isinstance(x0, dict),
                                        'nonidempotent_member': bool(nonidem)},
                                       {'kind': kind, 'names': list(names), 'x0': x0,
                                        'maxiter': maxiter, 'array': arr, 'choices': ch.choices},
@@ -109,7 +150,7 @@ def shard(item):
                     if len(outcomes) > 1:
                         T.nontriv((kind, names, x0, maxiter, arr))
                     T.hist('distinct_outcomes_per_config', min(len(outcomes), 9))
-    T.sample({'kind': kind, 'members': tuples[0], 'x0': INPUTS[5], 'maxiter': maxiters[-1]})
+    T.sample({'kind': kind, 'members': tuples[0], 'x0': inputs[5], 'maxiter': maxiters[-1]})
     return T
 
 
@@ -213,8 +254,25 @@ def run(ctx):
                 items.append((kind, tuples[i:i + 4], maxiters, bound, free))
     for n in names:
         items.append(('not', [(n,)], maxiters, 1 if not thorough else 2, 4))
+    # members that edit their argument in place (as every generated solver does): singles, and pairs with at least one of them
+    inplace = [m.__name__ for m in INPLACE]
+    mixed = [(a,) for a in inplace + ['step']]
+    mixed += [(a, b) for a in names + ['step'] + inplace for b in names + ['step'] + inplace if a in inplace or b in inplace]
+    for kind in ('and', 'or'):
+        for i in range(0, len(mixed), 6):
+            items.append((kind, mixed[i:i + 6], maxiters, 1 if not thorough else 2, 4))
+    for n in inplace:
+        items.append(('not', [(n,)], maxiters, 1, 4))
+    # one combinator object applied to two inputs in a row (state must not be carried from call to call)
+    rmem = ['identity', 'le2', 'ge3', 'swap', 'step', 'tie'] + (['pin1', 'shift', 'step!', 'le2!'] if thorough else ['step!'])
+    rtuples = [(a, b) for a in rmem for b in rmem] + ([(a, b, c) for a in rmem[:5] for b in rmem[:5] for c in rmem[:5]] if thorough else
+                                                      [(a, b, c) for a in ('identity', 'le2', 'step') for b in ('identity', 'ge3', 'step') for c in ('identity', 'swap', 'step')])
+    for kind in ('and', 'or'):
+        for i in range(0, len(rtuples), 6):
+            items.append((kind, rtuples[i:i + 6], (3, 10), 1, 0, 'reuse'))
     items.append(None)
-    ctx.bounds = {'members': names, 'core_members_for_triples': core, 'inputs': INPUTS, 'maxiter': maxiters,
+    ctx.bounds = {'in_place_members': inplace, 'reuse_members': rmem, 'reuse_inputs(first,then)': REUSE_INPUTS, 'reuse_maxiter': [3, 10],
+                  'members': names, 'core_members_for_triples': core, 'inputs': INPUTS, 'maxiter': maxiters,
                   'unit_alphabet': list(UNIT), 'randint': [-1, 0, 1],
                   'plan(size,members,free_prefix_choice_points,deviation_bound_after_prefix)':
                       [(a, len(b), c, d) for a, b, c, d in plan]}
